@@ -35,6 +35,9 @@ var c16Paths = []string{"provision-crl_file", "provision-crl_url", "first-cdp-fe
 	// a first run under signature_validation_mode none takes the configured CRL in; the process restarts on the same
 	// work_dir with the mode of the cell (the policy of the current configuration decides, not what the disk remembers)
 	"reprovision-crl_file-after-run-under-none", "reprovision-crl_url-after-run-under-none",
+	// the same for a list which came in through a certificate's distribution point during the run under none; the
+	// origin is down when the process restarts with the mode of the cell
+	"restart-after-first-cdp-fetch-under-none",
 	// the file named by trusted_signature_certs_files is replaced by another CA's certificate between two runs of the
 	// same process: the second run trusts what the file holds now
 	"reprovision-crl_url-after-trusted-cert-file-replaced",
@@ -332,6 +335,32 @@ func (c *c16Cast) runCell(cell c16Cell) (obs c16Obs, want []string) {
 			inForce = 0
 			if accept("unknown") {
 				inForce = 2
+			}
+			look()
+			expect()
+			w.Cleanup()
+			return
+		case "restart-after-first-cdp-fetch-under-none":
+			modeNow = "none"
+			publish(cell.Signer, 1)
+			if err := start(); err != nil {
+				obs.ProvisionErr = "first run under none: " + err.Error()
+				want = append(want, "provision-must-succeed")
+				return
+			}
+			look()
+			inForce = 1
+			expect()
+			net.Down(c16URL)
+			modeNow = cell.Mode
+			if err := restart(); err != nil {
+				obs.ProvisionErr = err.Error()
+				want = append(want, "provision-must-succeed")
+				return
+			}
+			inForce = 0
+			if cell.Disk && accept(cell.Signer) {
+				inForce = 1 // what the disk holds is a list this mode accepts
 			}
 			look()
 			expect()
